@@ -105,6 +105,33 @@ def run(ctx):
                 else: want2 = want
                 if r.returncode != want2: viol.append(dict(why='%s %r %r: exit %d, expected %d' % (tool, a, b, r.returncode, want2)))
                 if os.path.exists(os.path.join(d, 'CANARY')): viol.append(dict(why='xzdiff executed a command from a file name')); os.remove(os.path.join(d, 'CANARY'))
+        # xzdiff / xzcmp over every ordered pair of operand formats (uncompressed first or second included), same and
+        # different contents: status and text are those of diff / cmp on the decompressed data
+        import gzip as _gz, bz2 as _bz
+        from props.c16 import lz_member
+        dd = os.path.join(td, 'pairs'); os.mkdir(dd)
+        cmpl = os.path.join(dd, 'xzcmp'); os.symlink(os.path.join(bdir, 'xzdiff'), cmpl)
+        texts = {'A': b'line one\nline two\nneedle here\n' * 3, 'B': b'line one\nline 2\nneedle here\n' * 3}
+        fmts = {'plain': lambda t: t, 'x.xz': lambda t: lzma.compress(t), 'x.lzma': lambda t: lzma.compress(t, format=lzma.FORMAT_ALONE),
+                'x.lz': lambda t: lz_member(rng, t), 'x-lz': lambda t: lz_member(rng, t), 'x.txz': lambda t: lzma.compress(t), 'x.tlz': lambda t: lzma.compress(t, format=lzma.FORMAT_ALONE),
+                'x.gz': lambda t: _gz.compress(t), 'x.bz2': lambda t: _bz.compress(t)}
+        for fk, mk in fmts.items():
+            for tk, t in texts.items():
+                open(os.path.join(dd, tk + '_' + fk), 'wb').write(mk(t))
+                open(os.path.join(dd, 'ref' + tk), 'wb').write(t)
+        fl = list(fmts)
+        combos = [(a, b) for a in fl for b in fl]
+        if ctx.quick(): combos = [c for c in combos if 'plain' in c or 'x.lz' in c or 'x-lz' in c] + rng.sample(combos, 12)
+        for fa, fb in combos:
+            for ta, tb in (('A', 'A'), ('A', 'B')):
+                a = ta + '_' + fa; b = tb + '_' + fb
+                want = 0 if ta == tb else 1
+                refd = subprocess.run(['diff', 'ref' + ta, 'ref' + tb], cwd=dd, capture_output=True, env=env).stdout
+                for tool in (os.path.join(bdir, 'xzdiff'), cmpl):
+                    r = subprocess.run([tool, a, b], cwd=dd, capture_output=True, env=env, stdin=subprocess.DEVNULL, timeout=60); n_eval += 1
+                    distinct.add(('diffpair', fa, fb, want, r.returncode))
+                    if r.returncode != want: viol.append(dict(why='%s %s %s: exit %d, the decompressed contents are %s (expected %d)' % (os.path.basename(tool), a, b, r.returncode, 'equal' if want == 0 else 'different', want)))
+                    elif tool != cmpl and r.stdout != refd: viol.append(dict(why='xzdiff %s %s: text differs from diff on the decompressed contents' % (a, b)))
     finally:
         shutil.rmtree(td, ignore_errors=True)
     ctx.cov['evaluations'] = n_eval
